@@ -377,6 +377,14 @@ def run_ob(ctx, ob):
         r.sat_vars, r.sat_clauses = max(int(a) for a, _ in vc), max(int(b) for _, b in vc)
     if results is not None:
         r.nprops = len(results)
+    if results is None and "irep not terminated" in out + err and not getattr(ob, "_reran", False):
+        # the goto binary was unreadable (seen once in ~8000 queries): rebuild and run again
+        ob._reran = True
+        try:
+            os.unlink(r.binary)
+        except OSError:
+            pass
+        return run_ob(ctx, ob)
     if results is None:
         r.verdict = "inconclusive" if ("std::bad_alloc" in (out + err) or "Out of memory" in (out + err) or rc in (-9, 137, -6, 134)) else "error"
         errs = " | ".join(re.findall(r'"messageText": "([^"]*)",\s*"messageType": "ERROR"', out))
